@@ -523,8 +523,125 @@ def run_exiting(req):
     return {"obs": obs[:6], "stats": stats}
 
 
+# ------------------------------------------------------------------------------------ C19 on real stacks
+
+def projection(stack, sc, sh, out):
+    """Reference projection of a real Stack to (kind, filename, lineno, funcname) entries, written from the
+    documentation of as_stdlib_summary / as_stdlib_summary_with_contexts."""
+    for f in stack.frames:
+        if f.hide and not sh:
+            continue
+        if sc:
+            for c in f.contexts:
+                _proj_ctx(c, f, sh, out)
+            if not (f.contexts and f.contexts[-1].is_exiting):
+                out.append(("frame", f.filename, f.lineno, f.funcname))
+        else:
+            out.append(("frame", f.filename, f.lineno, f.funcname))
+
+
+def _proj_ctx(c, parent, sh, out):
+    if c.hide and not sh:
+        return
+    out.append(("ctx", parent.filename, c.start_line or parent.lineno, parent.funcname))
+    if c.inner_stack is not None:
+        projection(c.inner_stack, True, sh, out)
+    for ch in c.children:
+        if isinstance(ch, Context):
+            _proj_ctx(ch, parent, sh, out)
+
+
+def run_summary(req):
+    """C19 on a real extraction: the stdlib summary of extract(holder) for a generated manager tree."""
+    import pickle
+    import traceback as tbmod
+    root = req["root"]
+    obs = []
+    b = Builder()
+    rr = b.make(root)
+
+    async def holder():
+        __tracebackhide__ = req.get("hide_holder", False)  # noqa: F841
+        if root["async"]:
+            async with rr.obj:
+                await b._afill(rr)
+                await trap("body")
+        else:
+            with rr.obj:
+                b._fill(rr)
+                await trap("body")
+
+    co = holder()
+    try:
+        co.send(None)
+    except BaseException as ex:
+        return {"harness_error": "holder failed to start: %r" % (ex,)}
+    st = extract(co)
+    # hide some elements the way hooks would, so that hidden flags inside contexts occur
+    marks = req.get("hide_marks", [])
+    allctx = []
+
+    def collect(stack):
+        for f in stack.frames:
+            for c in f.contexts:
+                cc(c)
+
+    def cc(c):
+        allctx.append(c)
+        if c.inner_stack is not None:
+            for f in c.inner_stack.frames:
+                allctx.append(f)
+            collect(c.inner_stack)
+        for ch in c.children:
+            if isinstance(ch, Context):
+                cc(ch)
+    collect(st)
+    for m in marks:
+        if allctx:
+            allctx[m % len(allctx)].hide = True
+    stats = {"elements": len(allctx), "hidden": len(marks) if allctx else 0, "combos": 0}
+    for sc in (False, True):
+        for sh in (False, True):
+            for cl in (False, True):
+                stats["combos"] += 1
+                try:
+                    s = st.as_stdlib_summary(show_contexts=sc, show_hidden_frames=sh, capture_locals=cl)
+                except BaseException as ex:
+                    obs.append({"kind": "summary_raised", "opts": [sc, sh, cl], "exc": repr(ex)})
+                    continue
+                exp = []
+                projection(st, sc, sh, exp)
+                got = [(fs.filename, fs.lineno, fs.name) for fs in s]
+                ok = len(got) == len(exp) and all(
+                    g[0] == e[1] and g[1] == e[2] and (g[2] == e[3] if e[0] == "frame" else g[2].startswith(e[3]))
+                    for g, e in zip(got, exp))
+                if not ok:
+                    obs.append({"kind": "summary_differs_from_projection", "opts": [sc, sh, cl], "got": got[:12],
+                                "exp": [e[1:] for e in exp][:12]})
+                if any((fs.locals is not None) != cl for fs in s):
+                    obs.append({"kind": "capture_locals", "opts": [sc, sh, cl]})
+                try:
+                    if list(pickle.loads(pickle.dumps(s))) != list(s):
+                        obs.append({"kind": "pickle_round_trip", "opts": [sc, sh, cl]})
+                except BaseException as ex:
+                    obs.append({"kind": "pickle_failed", "opts": [sc, sh, cl], "exc": repr(ex)})
+                if not isinstance(s, tbmod.StackSummary):
+                    obs.append({"kind": "not_a_StackSummary"})
+        flat = st.format_flat(show_contexts=sc)
+        body = st.as_stdlib_summary(show_contexts=sc).format() if st.frames else []
+        if flat[1:1 + len(body)] != body or not flat[0].startswith("stackscope.Stack"):
+            obs.append({"kind": "format_flat_is_not_header_plus_summary", "show_contexts": sc})
+    try:
+        co.close()
+    except BaseException:
+        pass
+    return {"obs": obs[:5], "stats": stats}
+
+
 def handle(req):
     op = req["op"]
+    if op == "ctxtree.summary":
+        return run_summary(req)
     if op == "ctxtree.tree":
         return run_tree(req)
     if op == "ctxtree.exiting":
